@@ -166,6 +166,7 @@ func (r *Replica) syncOnce(ctx context.Context, maxSyncLTXFiles int) (result rep
 		return result, err
 	}
 	defer r.syncSem.Release(1)
+	defer verifTrace(r.db, "sync.rel")
 
 	// Clear last position if if an error occurs during sync.
 	defer func() {
@@ -235,6 +236,7 @@ func (r *Replica) syncOnce(ctx context.Context, maxSyncLTXFiles int) (result rep
 
 func (r *Replica) lockSync(ctx context.Context) error {
 	if r.syncSem.TryAcquire(1) {
+		verifTrace(r.db, "sync.try")
 		return nil
 	}
 	r.syncWaiters.Add(1)
@@ -242,6 +244,7 @@ func (r *Replica) lockSync(ctx context.Context) error {
 	if err := r.syncSem.Acquire(ctx, 1); err != nil {
 		return fmt.Errorf("wait for replica sync: %w", context.Cause(ctx))
 	}
+	verifTrace(r.db, "sync.acq")
 	return nil
 }
 
